@@ -72,6 +72,12 @@ def translate_statement(  # noqa: C901
         tval, val = translate_expression(stmt.value, env)  # TODO: typecheck
         res = decompose_to_symbols(val, f"{target}")
 
+        # A tuple value can be a flat list of bits (a tuple variable, the result of a call):
+        # name the bits following the type structure, as they are looked up later
+        bit_names = _bit_names(target, tval)
+        if len(bit_names) == len(res):
+            res = [(n, x[1]) for n, x in zip(bit_names, res)]
+
         env.bind(Binding(target, tval, [x[0] for x in res]), rebind=target in env)
         res = list(map(lambda x: (Symbol(x[0]), x[1]), res))
         return res, env
